@@ -210,6 +210,9 @@ func schemaContexts() []SchemaCtx {
 			}
 			return J{"type": "object", "properties": J{"p": merge(in, J{"default": v})}}
 		}},
+		{"reqprop+goname", func(in J, b *defBuilder) J { // the Go name differs from the JSON name
+			return J{"type": "object", "required": A{"p"}, "properties": J{"p": merge(in, J{"x-go-name": "RenamedField"}), "q": J{"type": "string", "x-go-name": "P"}}}
+		}},
 		{"reqprop+nonnullable", func(in J, b *defBuilder) J {
 			return J{"type": "object", "required": A{"p"}, "properties": J{"p": merge(in, J{"x-nullable": false})}}
 		}},
